@@ -196,6 +196,80 @@ func (vc *VC) computeAddrOnly() {
 			vc.addrOnly[v] = only
 		}
 	}
+	// escape points of locally allocated structs (for the non-nil field discipline)
+	vc.escBefore = map[ssa.Instruction][]*ssa.Alloc{}
+	vc.escAtEnd = map[int][]*ssa.Alloc{}
+	for _, b := range vc.fn.Blocks {
+		for _, ins := range b.Instrs {
+			al, ok := ins.(*ssa.Alloc)
+			if !ok || !isStruct(deref(al.Type())) || !vc.hasNonNilFields(deref(al.Type())) {
+				continue
+			}
+			for _, r := range *al.Referrers() {
+				switch u := r.(type) {
+				case *ssa.FieldAddr, *ssa.DebugRef:
+				case *ssa.Store:
+					if u.Val == ssa.Value(al) {
+						vc.escBefore[r] = append(vc.escBefore[r], al)
+					}
+				case *ssa.Phi:
+					for j, e := range u.Edges {
+						if e == ssa.Value(al) {
+							pb := u.Block().Preds[j]
+							vc.escAtEnd[pb.Index] = append(vc.escAtEnd[pb.Index], al)
+						}
+					}
+				default:
+					vc.escBefore[r] = append(vc.escBefore[r], al)
+				}
+			}
+		}
+	}
+}
+
+func (vc *VC) hasNonNilFields(t types.Type) bool {
+	st := t.Underlying().(*types.Struct)
+	for i := 0; i < st.NumFields(); i++ {
+		if vc.e.cs.NonNilField[vc.nonNilKeyField(t, i)] {
+			return true
+		}
+		if isStruct(st.Field(i).Type()) && vc.hasNonNilFields(st.Field(i).Type()) {
+			return true
+		}
+	}
+	return false
+}
+
+func (vc *VC) escapeChecks(allocs []*ssa.Alloc, pos token.Pos) {
+	for _, al := range allocs {
+		a, ok := vc.val[al]
+		if !ok {
+			continue
+		}
+		vc.nonNilInit(a, deref(al.Type()), al, pos)
+	}
+}
+
+func (vc *VC) nonNilInit(ref Term, t types.Type, al *ssa.Alloc, pos token.Pos) {
+	st := t.Underlying().(*types.Struct)
+	for i := 0; i < st.NumFields(); i++ {
+		f := st.Field(i)
+		if isStruct(f.Type()) {
+			vc.nonNilInit(vc.embPtr(t, i, ref), f.Type(), al, pos)
+			continue
+		}
+		key := vc.nonNilKeyField(t, i)
+		if !vc.e.cs.NonNilField[key] {
+			continue
+		}
+		n, s, _ := vc.e.fieldArr(t, i)
+		cur := Sel(vc.arrCur(n, s), ref)
+		txt := vc.exprText(al.Pos())
+		if txt == "" {
+			txt = vc.e.typeName(t)
+		}
+		vc.check("nonnil-init", pos, key+" of "+txt, Not(vc.isNil(cur, f.Type())), vc.safetyProps())
+	}
 }
 
 // ------------------------------------------------------------------------------------------
@@ -432,7 +506,15 @@ func (vc *VC) block(b *ssa.BasicBlock) {
 		vc.loopHeader(b, inEdges, inPreds)
 	}
 
-	for _, ins := range b.Instrs {
+	for i, ins := range b.Instrs {
+		if as := vc.escBefore[ins]; len(as) > 0 {
+			vc.escapeChecks(as, ins.Pos())
+		}
+		if i == len(b.Instrs)-1 {
+			if as := vc.escAtEnd[b.Index]; len(as) > 0 {
+				vc.escapeChecks(as, ins.Pos())
+			}
+		}
 		vc.instr(ins)
 	}
 	vc.hout[b.Index] = vc.cur
